@@ -1121,7 +1121,7 @@ func nameTokens(r *rand.Rand) string {
 func generate(r *rand.Rand, tier string) []string {
 	n := 1500
 	if tier == "thorough" {
-		n = 70000
+		n = 60000
 	}
 	g := &gen{r: r}
 	var out []string
